@@ -93,6 +93,7 @@ def check_selection(col, pid, spec, d, plain, ids, tags, R, X, T, kw, rp, args, 
     entered = [e["node"] for e in log if e["kind"] == "FENTER"]
     col.evaluations += 1
     col.counters["c12_executor_runs"] += 1
+    col.generic(log, rp)
     if exp is None:
         col.counters["c12_invalid_triples"] += 1
         if res[0] == "ok" or not isinstance(res[1], ValueError):
@@ -354,6 +355,7 @@ def dbg_shape(col, pid, rng, n, edges):
                         ent.setdefault(e["node"], []).append((e["args"], e["kwargs"]))
                 outs[flag] = (res, ent)
                 rp2 = dict(rp, op=op, kw=S.jsonable(kw), flag=flag)
+                col.generic(log, rp2)
                 if res[0] != "ok":
                     col.violation(pid, "operation_raised(flag_%s)" % ("on" if flag else "off"), dict(op=op, selection=S.jsonable(kw), exc=repr(res[1])[:300], source=S.render(spec), debug=[ids[i] for i in sorted(debug)]), rp2)
                     continue
